@@ -599,6 +599,19 @@ def _directed(argc):
     return out
 
 
+def _corpus(ctx):
+    """corpus/versions/*.json: minimised past failures (handler scripts), run first."""
+    d = os.path.join(ctx.verif, "corpus", "versions")
+    out = []
+    if os.path.isdir(d):
+        for fn in sorted(os.listdir(d)):
+            if fn.endswith(".json"):
+                c = json.load(open(os.path.join(d, fn)))
+                specs = {k: {"objs": [[tuple(x) for x in o] for o in sp["objs"]]} for k, sp in c["specs"].items()}
+                out.append((specs, c["script"], c.get("mode", "mem")))
+    return out
+
+
 def run(ctx):
     ns = L.load(ctx.repo)
     rng = ctx.rng("versions.apply")
@@ -608,12 +621,13 @@ def run(ctx):
     disagreements, violations, samples = [], [], []
     distinct = set()
     argc = [10000]
-    n_handler = ctx.scale(500, 12000)
-    n_pair = ctx.scale(160, 4000)
+    n_handler = ctx.scale(1500, 24000)
+    n_pair = ctx.scale(500, 8000)
     cases = 0
     runs = []
     try:
-        todo = [("directed", s, sc, m) for s, sc, m in _directed(argc)]
+        todo = [("corpus", s, sc, m) for s, sc, m in _corpus(ctx)]
+        todo += [("directed", s, sc, m) for s, sc, m in _directed(argc)]
         for i in range(n_handler):
             todo.append(("handler",) + gen_handler_script(rng, forbidden, argc) + (rng.choice(["mem", "mem", "mem", "file", "user"]),))
         for kind, specs, script, mode in todo:
@@ -657,7 +671,7 @@ def run(ctx):
                 v = dict(v)
                 v["replay"] = {"specs": _js(specs), "script": script, "mode": mode, "seed": seed, "kind": kind}
                 violations.append(v)
-        if len(samples) < 2 and kind != "directed":
+        if len(samples) < 2 and kind not in ("directed", "corpus"):
             samples.append({"kind": kind, "mode": mode, "script": script[:12],
                             "classes": {k: L.decls_of(s) for k, s in specs.items()}})
 
